@@ -75,6 +75,25 @@ def _ops(m):
         ('AnsiString(str(v))', lambda v: A(str(v)), ()),
         ('AnsiStr(v)[1:] -> AnsiString', lambda v: A(S(v)[1:]), ()),
         ('format(v, *^9:[4)', lambda v: A(format(v, '*^9:[4')), ()),
+        # calls that must be rejected, and must leave the receiver as it was
+        ('apply(nosuch)', lambda v: v.apply_formatting('nosuch', 0, 2), ()),
+        ('apply([1, nosuch])', lambda v: v.apply_formatting([1, 'nosuch']), ()),
+        ('apply(-1 as code)', lambda v: v.apply_formatting([31, -1], 1), ()),
+        ('remove(nosuch)', lambda v: v.remove_formatting('nosuch'), ()),
+        ('format_matching(a,red,nosuch)', lambda v: v.format_matching('a', 'red', 'nosuch'), ()),
+        ('format_matching(.,1,rgb(1,2),regex)', lambda v: v.format_matching('.', '1', 'rgb(1,2)', regex=True), ()),
+        ('unformat_matching(b,31,nosuch)', lambda v: v.unformat_matching('b', '31', 'nosuch'), ()),
+        ('center(5,ab)', lambda v: v.center(5, 'ab'), ()),
+        ('rjust(9,"",inplace)', lambda v: v.rjust(9, '', inplace=True), ()),
+        ('[0:2:2]', lambda v: v[0:2:2], ()),
+        ('["x"]', lambda v: v['x'], ()),
+        ('+ 5', lambda v: v + 5, ()),
+        ('+= None', lambda v: v.__iadd__(None), ()),
+        ('join(v, 5)', lambda v: A.join(v, 5), ()),
+        ('format(v, <<3)', lambda v: format(v, '<<3x'), ()),
+        ('format(v, 5:nosuch)', lambda v: format(v, '5:nosuch'), ()),
+        ('index(zz)', lambda v: v.index('zz'), ()),
+        ('AnsiString(v, nosuch)', lambda v: A(v, 'nosuch'), ()),
     ]
     return ops
 
@@ -95,6 +114,29 @@ def _with_timeout(fn, v, seconds=5):
     finally:
         signal.alarm(0)
         signal.signal(signal.SIGALRM, old)
+
+
+def _rerun(envr, ops, ri, seq, seconds=20):
+    from pyvc.argkinds import native_receivers
+    v = native_receivers(envr)[ri].copy()
+    for k in seq:
+        try:
+            res = _with_timeout(ops[k][1], v, seconds)
+        except _TimedOut:
+            raise
+        except Exception:  # noqa
+            break
+        if type(res).__name__ == 'AnsiString':
+            v = res
+    return v
+
+
+def _confirm_hang(envr, ops, ri, seq):
+    try:
+        _rerun(envr, ops, ri, seq)
+    except _TimedOut:
+        return True
+    return False
 
 
 def _observe(m, v, wf_ok):
@@ -123,7 +165,7 @@ def _observe(m, v, wf_ok):
 
 def e2_items(tier):
     # (start value index, first operation index): the remaining operations of the history are enumerated inside the item
-    return [[r, o, 2 if tier == 'quick' else 3] for r in range(8) for o in range(58)]
+    return [[r, o, 2 if tier == 'quick' else 3] for r in range(8) for o in range(76)]
 
 
 def e2_task(envr, item):
@@ -149,8 +191,14 @@ def e2_task(envr, item):
                 try:
                     res = _with_timeout(fn, v)
                 except _TimedOut:
-                    bad = ('%s did not return within 5 s' % label, seq, step)
-                    break
+                    # confirm on a fresh run of the same history with a long limit (a loaded machine must not look like a hang)
+                    if _confirm_hang(envr, ops, ri, seq[:step + 1]):
+                        bad = ('%s did not return within 5 s, nor within 20 s when the history was run again' % label, seq, step)
+                        break
+                    res = None
+                    v = _rerun(envr, ops, ri, seq[:step + 1])
+                    cur = v
+                    continue
                 except Exception as e:  # noqa
                     tn = type(e).__name__
                     if tn not in ALLOWED + tuple(extra):
@@ -184,9 +232,9 @@ def e2_task(envr, item):
     return ContractRun(body, [], replayable=False)
 
 
-GROUPS.append(Group('E2', 'BOUNDED, native: every history of 2 (quick) / 3 (thorough) operations out of 58 public calls on 8 start values '
+GROUPS.append(Group('E2', 'BOUNDED, native: every history of 2 (quick) / 3 (thorough) operations out of 76 public calls (18 of them calls that must be rejected) on 8 start values '
                     'leaves values on which the self-check, str(), repr(), to_str, format, settings_at, slicing, concatenation, '
                     'find_settings and iteration succeed and the representation invariant holds; an operation may raise only '
                     'TypeError / ValueError (IndexError for an integer index) and then leaves its receiver unchanged',
                     ['C09'], 'B', ['AnsiString.*'], e2_items, e2_task,
-                    bounds='exhaustive: 8 start values x 58^2 (quick) / 58^3 (thorough) histories; concrete arguments; not a proof'))
+                    bounds='exhaustive: 8 start values x 76^2 (quick) / 76^3 (thorough) histories; concrete arguments; not a proof'))
